@@ -28,6 +28,16 @@ template <typename Type>
 inline fcppt::intrusive::base<Type>::base(base &&_other) noexcept
     : prev_{_other.prev_}, next_{_other.next_}
 {
+  // _other is not linked into anything (e.g. it was unlinked or moved from)
+  if (next_ == &_other)
+  {
+    prev_ = this;
+
+    next_ = this;
+
+    return;
+  }
+
   prev_->next_ = this;
 
   next_->prev_ = this;
@@ -50,6 +60,17 @@ inline fcppt::intrusive::base<Type> &fcppt::intrusive::base<Type>::operator=(bas
   next_->prev_ = prev_;
 
   prev_->next_ = next_;
+
+  // _other is not linked into anything (any more): it was unlinked or moved
+  // from, or this object was its only neighbour
+  if (_other.next_ == &_other)
+  {
+    prev_ = this;
+
+    next_ = this;
+
+    return *this;
+  }
 
   prev_ = _other.prev_;
 
